@@ -92,6 +92,9 @@ pub fn check(c: &Case, stats: &mut Stats) -> CheckResult {
     if several {
         stats.label("term-in-several-categories");
     }
+    if cats.len() > 30 {
+        stats.label("categories>30");
+    }
     if !m.anc[m.i(118)].contains(&1) {
         stats.label("118-not-below-1");
     }
@@ -114,7 +117,7 @@ pub fn check(c: &Case, stats: &mut Stats) -> CheckResult {
 }
 
 fn strategy(tier: Tier) -> BoxedStrategy<Case> {
-    let max = if tier == Tier::Quick { 22 } else { 70 };
+    let max = if tier == Tier::Quick { 40 } else { 80 };
     let cfg = GenCfg::small().terms(2, max).recs(3).standard().with_flags(true).names(NameMode::Plain);
     (
         gen::facts(cfg),
@@ -146,12 +149,12 @@ impl Property for C19 {
     }
     fn cases(&self, tier: Tier) -> u64 {
         match tier {
-            Tier::Quick => 120_000,
+            Tier::Quick => 80_000,
             Tier::Thorough => 1_200_000,
         }
     }
     fn required_labels(&self, _tier: Tier) -> Vec<&'static str> {
-        vec!["nontrivial", "missing-root", "term-below-modifier-and-phenotype-branch", "term-in-several-categories", "118-not-below-1", "118-without-children", "childless-top-level-term"]
+        vec!["nontrivial", "categories>30", "missing-root", "term-below-modifier-and-phenotype-branch", "term-in-several-categories", "118-not-below-1", "118-without-children", "childless-top-level-term"]
     }
     fn run_generated(&self, tier: Tier, seed: u64, n: u64, stats: &mut Stats) -> Option<(Value, Failure)> {
         run_typed(strategy(tier), seed, n, stats, check)
